@@ -200,6 +200,38 @@ with decode_fields (cfg : ucfg) (fl : fields) (obj : list (string * jv)) {struct
            | Some v => decode_present cfg (reads_strings cfg o) t v
            end)
           (fun x => obind (decode_fields cfg rest obj) (fun xs => Some (x :: xs)))
+  | FEmbed opt ptr inner rest =>
+    (* an embedded struct's members are read from the same object.  A non-optional one is
+       always built; an optional one is built only if some member key is present, and then its
+       absent members hold their defaults (zero without one) *)
+    obind (if opt then
+             let filled := any_present inner obj in
+             obind (decode_opt_members cfg inner obj filled)
+                   (fun xs => Some (if ptr then (if filled then VPtr (VStruct xs) else VNil) else VStruct xs))
+           else
+             obind (decode_fields cfg inner obj)
+                   (fun xs => Some (if ptr then VPtr (VStruct xs) else VStruct xs)))
+          (fun x => obind (decode_fields cfg rest obj) (fun xs => Some (x :: xs)))
+  end
+
+with decode_opt_members (cfg : ucfg) (fl : fields) (obj : list (string * jv)) (filled : bool)
+                        {struct fl} : option (list gval) :=
+  match fl with
+  | FNil => Some []
+  | FCons key o t rest =>
+    obind (match field_input cfg t key obj with
+           | None =>
+             match opt_default o with
+             | Some d => if filled then decode_default t d else Some (zero t)
+             | None => Some (zero t)
+             end
+           | Some JNull => Some (zero t)
+           | Some v => decode_present cfg (reads_strings cfg o) t v
+           end)
+          (fun x => obind (decode_opt_members cfg rest obj filled) (fun xs => Some (x :: xs)))
+  | FEmbed _ ptr inner rest =>
+    obind (decode_opt_members cfg rest obj filled)
+          (fun xs => Some ((if ptr then VNil else VStruct (zero_fields inner)) :: xs))
   end.
 
 Definition decode (cfg : ucfg) (fl : fields) (d : option jv) : option gval :=
@@ -214,6 +246,17 @@ Definition all_elems (f : jv -> bool) (l : list jv) : bool :=
   forallb (fun v => match v with JNull => true | _ => f v end) l.
 Definition all_values (f : jv -> bool) (o : list (string * jv)) : bool :=
   forallb (fun kv => f (snd kv)) o.
+
+(* "fully set": every member of an optional embedded struct is supplied, defaulted, or
+   optional in its context (an embedded struct nested in it can never be supplied) *)
+Fixpoint fully_set (fl : fields) (obj : list (string * jv)) : bool :=
+  match fl with
+  | FNil => true
+  | FCons key o _ rest =>
+    (has key obj || declared_optional o obj || match opt_default o with Some _ => true | None => false end)
+    && fully_set rest obj
+  | FEmbed opt _ _ rest => opt && fully_set rest obj
+  end.
 
 Fixpoint meets_present (cfg : ucfg) (t : ftype) (o : option fopts) (v : jv) {struct t} : bool :=
   match t with
@@ -259,6 +302,26 @@ with meets_fields (cfg : ucfg) (fl : fields) (obj : list (string * jv)) {struct 
     | Some v => meets_present cfg t o v
     end &&
     meets_fields cfg rest obj
+  | FEmbed opt ptr inner rest =>
+    (if opt then
+       (* the supplied members meet their constraints, and if any is supplied the struct is fully set *)
+       meets_opt_members cfg inner obj && (negb (any_present inner obj) || fully_set inner obj)
+     else meets_fields cfg inner obj) &&
+    meets_fields cfg rest obj
+  end
+
+with meets_opt_members (cfg : ucfg) (fl : fields) (obj : list (string * jv)) {struct fl} : bool :=
+  match fl with
+  | FNil => true
+  | FCons key o t rest =>
+    opts_ok o && dep_respected key o obj &&
+    match field_input cfg t key obj with
+    | None => true
+    | Some JNull => declared_optional o obj
+    | Some v => meets_present cfg t o v
+    end &&
+    meets_opt_members cfg rest obj
+  | FEmbed _ _ _ rest => meets_opt_members cfg rest obj
   end.
 
 Definition meets (cfg : ucfg) (fl : fields) (d : option jv) : bool :=
